@@ -53,7 +53,7 @@ func loadBounded(verif, pid string) []BoundedSpec {
 }
 
 var confLine = regexp.MustCompile(`CONF [^\n]*`)
-var confSig = regexp.MustCompile(`CONF-SIG (sha=[0-9a-f]+ n=\d+)`)
+var confSig = regexp.MustCompile(`CONF-SIG (sha=[0-9A-Za-z_]+ n=\d+)`)
 var confStats = regexp.MustCompile(`CONF-STATS evaluations=(\d+)`)
 
 // runBounded runs the tests of one package in one `go test -overlay` invocation against repo.
